@@ -980,6 +980,12 @@ where
                     ..
                 }) = self.ports.get_mut(&port)
                 {
+                    // A message without ports uses no flow credits, thus an unlimited number
+                    // of them could be queued for the port.
+                    if ports.is_empty() {
+                        return Err(protocol_err(format!("received port data without ports on port {}", &port)));
+                    }
+
                     for port in &ports {
                         if !self.outstanding_remote_port_requests.insert(*port) {
                             return Err(protocol_err(format!(
